@@ -29,7 +29,7 @@ pub fn scenario_sets(tier: Tier) -> Vec<Entry> {
     }
     // C18 long idle runs
     for contacts in 1..=3usize {
-        let cfg = super::c18::Cfg { contacts, outages: false, minutes: tier.pick(10, 60), latency: 20, unreachable_hearsay: contacts == 2, search_every_ms: None, send_delay_ms: 0, rng_seed: 1 };
+        let cfg = super::c18::Cfg { contacts, outages: false, minutes: tier.pick(10, 60), latency: 20, unreachable_hearsay: contacts == 2, search_every_ms: None, send_delay_ms: 0, poll_bootstrapped_ms: None, rng_seed: 1 };
         v.push(Entry {
             desc: json!({"set":"C18-idle","contacts":contacts}),
             real_nodes: vec![super::c18::node_addr()],
@@ -130,7 +130,10 @@ pub fn tid_rules(res: &RunResult, real_nodes: &[SocketAddr]) -> (u64, Vec<(Strin
                 continue;
             }
             *seen_tid_dst.entry((p.tid.clone(), d.dst)).or_insert(0) += 1;
-            by_prefix.entry(p.tid[..5].to_vec()).or_default().push((d.sent_ms, p.tid.clone(), d.dst, p.q.clone()));
+            // bootstrap's first round asks for the node's own id; every other find_node (bucket rounds,
+            // refresh) asks for an id with one bit flipped
+            let kind = if p.q == "find_node" && p.target.is_some() && p.target == p.id { "find_node-own-id".to_string() } else { p.q.clone() };
+            by_prefix.entry(p.tid[..5].to_vec()).or_default().push((d.sent_ms, p.tid.clone(), d.dst, kind));
         }
         for ((tid, dst), n) in &seen_tid_dst {
             if *n > 1 {
@@ -150,7 +153,7 @@ pub fn tid_rules(res: &RunResult, real_nodes: &[SocketAddr]) -> (u64, Vec<(Strin
                     Some((t0, q0)) => {
                         // allowed only as the shared first-round bootstrap id: find_node, same round
                         // (the round is throttled: later sends of the same round come >= 500 ms apart)
-                        let shared_round = q == "find_node" && *q0 == "find_node" && *t - *t0 <= 60_000;
+                        let shared_round = q == "find_node-own-id" && *q0 == "find_node-own-id" && *t - *t0 <= 60_000;
                         if !shared_round {
                             viol.push(("tid-reused-within-activity".to_string(), format!("{} reuses transaction id {} ({} at {} ms, {} at {} ms)", node, hex(tid), q0, t0, q, t)));
                         }
